@@ -169,7 +169,7 @@ def outcome_event(case, run, pristine_flat, fm, world_keys):
     ev["check"] = tri(dump.get("check"))
     pc = dump.get("packChecks", {})
     ev["coveredChecks"] = [tri(pc.get(world_keys.get(k, k), "err")) for k in case["cpacks"]]
-    ev["entriesSame"] = all(fg.get(k) == a for k, a in pristine_flat.items() if k.startswith("index/"))
+    ev["entriesSame"] = all(fg.get(k) == a for k, a in pristine_flat.items() if k.startswith("index/") and ("/typed" not in k or k in fg))
     ev["contentSame"] = all(fg.get(k) == a for k, a in pristine_flat.items() if k.startswith("pack/"))
     return ev, diffs
 
@@ -405,6 +405,10 @@ def run(prop, tier):
                     cc = dict(c_, id=sid, profile=profile, world=(comp, concat, fn))
                     case_index[sid] = cc
                     sc = dict(req, id=sid, damage=c_["damage"])
+                    # the typed property builders are read as well, except where that only costs time: C04 judges checks only,
+                    # and in the worlds of thousands of entries one case in four is enough
+                    if prop == "C04" or (stride in ("big", "bigc") and i % 4):
+                        sc["no_typed"] = True
                     if c_.get("entry_window"):
                         sc["entry_window"] = c_["entry_window"]
                         sc["max_content"] = 20
